@@ -118,6 +118,56 @@ add("C05", "R-5.4", "rules/check_preprocessor_include.py::CheckPreprocessorInclu
 
 
 # --------------------------------------------------------------------------- C08 R-8.1 (dead emission sites)
+def _check_prefix_dead_via_table(prog, fn, need, site) -> bool:
+    """Same argument when the call goes through a table of rows `(kinds, ..., handler)` scanned by
+    `for kinds, ..., handler in TABLE: if context.check_token(i, kinds) is True ...: handler(self, context, i)`: for the rows
+    whose handler is check_prefix, the kinds column must be disjoint from the kinds the dead site needs."""
+    import ast
+    from .calls import _table_display, _fn_of_value
+    from .fold import fold_in_fn
+    from .model import ancestors, text
+    call, caller = site.node, site.caller
+    loop = next((a for a in ancestors(call) if isinstance(a, ast.For) and isinstance(a.target, (ast.Tuple, ast.List))), None)
+    if loop is None or not isinstance(call.func, ast.Name):
+        return False
+    cols = [x.id if isinstance(x, ast.Name) else None for x in loop.target.elts]
+    if call.func.id not in cols:
+        return False
+    hcol = cols.index(call.func.id)
+    disp, owner = _table_display(prog, caller, loop.iter)
+    if not isinstance(disp, (ast.Tuple, ast.List)):
+        return False
+    # the dominating test check_token(<index>, <kinds column>) is True, on the index that is passed as the handler's position
+    params = [p for p in fn.params if p not in ("self", "cls")]
+    args = list(call.args)
+    if args and isinstance(args[0], ast.Name) and args[0].id in ("self", "cls"):
+        args = args[1:]
+    guards = [a for a in ancestors(call) if isinstance(a, ast.If)]
+    kcol = None
+    for f in need:
+        pname = f.subject[1]
+        if pname not in params or params.index(pname) >= len(args):
+            continue
+        idx_text = text(args[params.index(pname)])
+        for gd in guards:
+            for n in ast.walk(gd.test):
+                if isinstance(n, ast.Compare) and len(n.ops) == 1 and isinstance(n.ops[0], ast.Is) and text(n.comparators[0]) == "True" \
+                        and isinstance(n.left, ast.Call) and text(n.left.func).endswith("check_token") and len(n.left.args) == 2 \
+                        and text(n.left.args[0]) == idx_text and isinstance(n.left.args[1], ast.Name) and n.left.args[1].id in cols:
+                    kcol = cols.index(n.left.args[1].id)
+        if kcol is None:
+            return False
+        for row in disp.elts:
+            if not isinstance(row, (ast.Tuple, ast.List)) or len(row.elts) <= max(hcol, kcol):
+                return False
+            if _fn_of_value(prog, caller, owner, row.elts[hcol]) is fn:
+                kinds = fold_in_fn(row.elts[kcol], caller, default=None)
+                if not isinstance(kinds, (list, tuple, set, frozenset)) or (set(kinds) & set(f.items)):
+                    return False
+        return True
+    return False
+
+
 def _check_prefix_dead() -> bool:
     """new_error("") in CheckOperatorsSpacing.check_prefix executes only if check_token(pos, K1) is true for K1 = {TAB, SPACE};
     at its only call site the same index has just been tested `check_token(i, K2) is True` with K2 (p_operators) disjoint
@@ -136,6 +186,8 @@ def _check_prefix_dead() -> bool:
     if not need:
         return False
     sites = [c for c in callgraph(prog).sites.get(fn.key, []) if isinstance(c.node, ast.Call)]
+    if len(sites) == 1 and getattr(sites[0], "how", "") == "dynamic:table":
+        return _check_prefix_dead_via_table(prog, fn, need, sites[0])
     if len(sites) != 1:
         return False
     call, caller = sites[0].node, sites[0].caller
